@@ -223,6 +223,13 @@ class World:
             if ev[1] in functional:
                 return 'ok', None
             return 'reject', 'unknown code'
+        if kind == 'curin':
+            # register an ISO currency in a subclass of Money
+            functional, other = O.iso_table()
+            if ev[2] in self.um:
+                return 'reject', 'duplicate symbol'
+            return ('ok', None) if ev[2] in functional else \
+                ('reject', 'unknown code')
         if kind == 'newcur':
             return 'unspecified', 'checked in C08/C16 directly'
         raise ValueError(ev)
@@ -326,6 +333,14 @@ class World:
                 self.attempted_symbols.append(ev[1])
                 u = Money.register_currency(ev[1])
                 self._model_currency(ev[1], u)
+                return ('ok', u)
+            if kind == 'curin':
+                _, tname, sym = ev
+                self.attempted_symbols.append(sym)
+                u = self.types[tname].register_currency(sym)
+                self.um[sym] = UnitM(sym, tname, None, ((sym, 1),))
+                self.tm[tname].units.append(sym)
+                self.units[sym] = u
                 return ('ok', u)
             if kind == 'newcur':
                 from quantity.money import Money
